@@ -40,7 +40,7 @@ def gen_sweep_case(rng, truncate=False):
     maxr = np.inf
     if truncate:
         if rng.random() < 0.6:
-            thr = rng.choice([0.25, 0.5, 0.125, 0.3])
+            thr = rng.choice([0.25, 0.5, 0.125, 0.3, 0.4, 0.6, 0.45])      # also between s_k/||s|| and s_k/s_0 for tied leading values
         k = rng.random()
         if k < 0.35:
             maxr = rng.randint(1, 3)
